@@ -288,7 +288,7 @@ def make_games(ctx, harness, driver, n_games, n_bound_prefix, style_pool=None, s
         g.want = [sorted(ks)[0]] if ks else []
         for _ in range(n_bound_prefix): ks.add(r.randrange(0, n + 1))
         ks.add(0)
-        if n <= 30 and (g.style & 56):       # short pawn-structure games: every prefix against its own continuation (the property's quantifier)
+        if n <= 30 and (g.style & (56 | 128)):       # short pawn-structure games: every prefix against its own continuation (the property's quantifier)
             ks.update(range(0, n + 1))
         if o.startswith("ok "):
             st = dict(x.split("=") for x in o.split(" | ")[-1].split())
@@ -438,7 +438,7 @@ def run(ctx):
     games, tot = make_games(ctx, harness, driver, n_games, 6)
     ctx.log(f"{len(games)} games generated and re-played by the Lean specification")
     # short pawn-structure games for the API monitor only (cheap: ~1.5 ms per pair): every prefix against its own continuation
-    xgames, xtot = make_games(ctx, harness, driver, 1400 if quick else 12000, 0, style_pool=[16, 32, 24, 40, 8, 17, 33], short=True)
+    xgames, xtot = make_games(ctx, harness, driver, 1400 if quick else 12000, 0, style_pool=[16, 32, 24, 40, 8, 17, 33, 128, 128], short=True)
     ctx.log(f"{len(xgames)} short pawn-structure games for the bound monitor")
     # short games that END with an en-passant capture: the last-move analysis then has two forced last moves (capture + double push),
     # and the proof game the tool prints must still be a legal game (these finals go through -f and, first in line, through -f -o)
